@@ -180,11 +180,16 @@ def gen_excess_case(rng, kind, i):
     if grow > cap:
         grow = cap
     w[k] = grow
+    adv = f"D {rng.choice([d - a, d - a, d - a + 1, max(d - a - 1, 1), 1])}"
+    early = rng.random() < 0.4
+    if early:
+        lines.append(adv)           # the growing update itself happens at (next to) the deadline of key 1
     lines.append(f"I {k} {grow}")
     if kind == "sync" and rng.random() < 0.3:
         lines.append("S")
     # to the write-based deadline of key 1 (exactly, one before, one after), or nowhere
-    lines.append(f"D {rng.choice([d - a, d - a, d - a + 1, max(d - a - 1, 1), 1])}")
+    if not early:
+        lines.append(adv)
     univ = list(w) + [9]
     for _ in range(rng.choice([3, 5, 8])):
         x = rng.choice(univ)
@@ -472,3 +477,42 @@ def gen_window_grid(kind):
                     cases.append((f"{kind[0]}{n}_grid_{ttl}_{tti}_{a}_{t}", lines))
                     n += 1
     return cases
+
+
+def gen_huge_weights_case(rng, kind, i):
+    """Weights of the order of 2^31 .. 2^32-1: sums of a few of them leave u32 (victim weight aggregation, evicted
+    weight accumulation, capacity arithmetic).  Either a capacity of that magnitude, or a small capacity whose sketch
+    was enabled by ordinary weights first and an in-place update to a huge weight afterwards."""
+    big = [3_000_000_000, 2_147_483_648, 4_294_967_295, 2_500_000_000]
+    S = ["S"] if kind == "sync" else []
+    if rng.random() < 0.55:
+        cap = rng.choice([8_000_000_000, 2 ** 33, 2 ** 40, 12_000_000_000])
+        cfg = {"kind": kind, "cap": cap, "ttl": "none", "tti": "none", "weigher": "value", "hasher": rng.choice(["id", "mod:3"])}
+        lines = [cfg_line(cfg)]
+        for k in (1, 2, 3):
+            lines.append(f"I {k} {rng.choice(big)}")
+            lines += S
+        new = 9
+        for _ in range(rng.choice([1, 3, 5])):
+            lines.append(f"G {new}")
+            lines += S
+        lines.append(f"I {new} {rng.choice([4_000_000_000, 4_294_967_295, 3_500_000_000])}")   # needs two victims
+        lines += S + ["T", f"G {new}", "G 1", "G 2"] + S
+        lines.append(f"I {rng.choice([1, 2, 3, new])} {rng.choice(big)}")                 # an update changing a huge weight
+        lines += S + ["T"]
+        return (f"{kind[0]}{i}_hugecap", lines)
+    cap = rng.choice([10, 100])
+    cfg = {"kind": kind, "cap": cap, "ttl": "none", "tti": "none", "weigher": "value", "hasher": "id"}
+    lines = [cfg_line(cfg)]
+    ks = [1, 2, 3, 4]
+    for k in ks:
+        lines.append(f"I {k} {max(cap // 5, 1)}")        # beyond half full: the sketch is sized by ordinary weights
+        lines += S
+    for k in rng.sample(ks, rng.choice([1, 2, 3])):
+        # in-place growth far beyond the capacity; mostly so close to u32::MAX that one such entry plus the small
+        # ones evicted in the same pass leave u32 (every operation clears the excess of the previous update first)
+        lines.append(f"I {k} {rng.choice([4_294_967_295, 4_294_967_295, 4_294_967_290, 3_000_000_000])}")
+        if rng.random() < 0.5:
+            lines += S
+    lines += [f"G {ks[0]}"] + S + ["T", f"I 7 1"] + S + ["T"] + [f"G {k}" for k in ks] + S + ["T"]
+    return (f"{kind[0]}{i}_hugeupd", lines)
